@@ -21,7 +21,9 @@ import sfsrun
 # sub-blocks that only consume, entered with several elements they never touch (after a split instruction that follows a deep DUP;
 # a deep DUP that is cancelled): the stack bound is computed from the pruned variable list
 PINNED = ["DUP4 GAS ADD ADD", "DUP5 GAS POP POP ADD", "MSTORE DUP3 POP", "DUP4 GAS SUB SUB", "DUP6 PUSH 0 PUSH 0 LOG0 ADD", "DUP5 GAS LT ISZERO",
-          "SSTORE DUP4 POP ADD"]
+          "SSTORE DUP4 POP ADD",
+          # a comparison against zero that feeds an ISZERO and another instruction (the discount of the rule ISZ(GT(X,0)))
+          "PUSH 0 DUP2 GT DUP1 ISZERO SWAP1 PUSH 5 ADD", "PUSH 0 DUP2 GT DUP1 ISZERO ADD"]
 
 
 def search(cases, timeout, jobs=None, tag="srch"):
